@@ -386,7 +386,21 @@ type c06Pod struct {
 
 func TestVerifC06ManagerHistory(t *testing.T) {
 	rec := vk.New(t, "C06", "managerHistory")
-	rapid.Check(t, func(t *rapid.T) {
+	rapid.Check(t, c06ManagerHistoryProp(rec, false))
+}
+
+// The same state machine plus two rules (a separate test, so that the draw sequence of TestVerifC06ManagerHistory stays what it was):
+//   - topologyFlap: the node's NodeResourceTopology is deleted (topologyOptionsManager.Delete — what the NRT informer's OnDelete
+//     does), pods are deleted / updated / attempted while no topology is known, then the same topology is reported again;
+//   - reusableDryRun: a scheduling attempt that may reuse the CPUs of a matched reservation (ResourceOptions.preferredCPUs and
+//     reusableResources — what tryAllocateFromReusable passes), mostly with a NUMA hint and a REQUIRED bind policy.
+func TestVerifC06ManagerHistoryExt(t *testing.T) {
+	rec := vk.New(t, "C06", "managerHistoryExt")
+	rapid.Check(t, c06ManagerHistoryProp(rec, true))
+}
+
+func c06ManagerHistoryProp(rec *vk.Rec, ext bool) func(*rapid.T) {
+	return func(t *rapid.T) {
 		c := rec.Begin()
 		defer c.End()
 		tp := c06GenTopo(t)
@@ -403,17 +417,21 @@ func TestVerifC06ManagerHistory(t *testing.T) {
 		memPerNode := rapid.Int64Range(0, 1<<12).Draw(t, "memPerNode")
 		tom := NewTopologyOptionsManager()
 		const nodeName = "n"
-		tom.UpdateTopologyOptions(nodeName, func(o *TopologyOptions) {
-			o.CPUTopology = topo
-			o.MaxRefCount = maxRef
-			o.ReservedCPUs = reserved
-			for i := 0; i < topo.NumNodes; i++ {
-				o.NUMANodeResources = append(o.NUMANodeResources, NUMANodeResource{Node: i, Resources: corev1.ResourceList{
-					corev1.ResourceCPU:    *resource.NewMilliQuantity(int64(topo.CPUsPerNode())*1000, resource.DecimalSI),
-					corev1.ResourceMemory: *resource.NewQuantity(memPerNode, resource.BinarySI),
-				}})
-			}
-		})
+		reportTopology := func() {
+			tom.UpdateTopologyOptions(nodeName, func(o *TopologyOptions) {
+				o.CPUTopology = topo
+				o.MaxRefCount = maxRef
+				o.ReservedCPUs = reserved
+				o.NUMANodeResources = nil
+				for i := 0; i < topo.NumNodes; i++ {
+					o.NUMANodeResources = append(o.NUMANodeResources, NUMANodeResource{Node: i, Resources: corev1.ResourceList{
+						corev1.ResourceCPU:    *resource.NewMilliQuantity(int64(topo.CPUsPerNode())*1000, resource.DecimalSI),
+						corev1.ResourceMemory: *resource.NewQuantity(memPerNode, resource.BinarySI),
+					}})
+				}
+			})
+		}
+		reportTopology()
 		strat := rapid.SampledFrom(c06Strategies).Draw(t, "strategy")
 		rm := &resourceManager{numaAllocateStrategy: strat, topologyOptionsManager: tom, nodeAllocations: map[string]*NodeAllocation{}}
 		node := &corev1.Node{}
@@ -425,6 +443,11 @@ func TestVerifC06ManagerHistory(t *testing.T) {
 		sawShared, sawNUMA, sawReleaseAfterShare, sawRequired := false, false, false, false
 		sawRealloc, sawPeek := false, false
 		dead := false // set when a case is abandoned on a known finding: remaining actions become no-ops
+		// used by the ext rules only
+		topoGone := false // between "NodeResourceTopology deleted" and "reported again"
+		flapOps, flapReleases, flapAttempts, flapAttemptOK := 0, 0, 0, 0
+		releasedWhileGone, allocAfterGoneRelease := false, false
+		reusableRuns, reusableOK, unalignedRuns, targetRuns, targetOK := 0, 0, 0, 0, 0
 
 		check := func(where string) bool {
 			na := rm.GetNodeAllocation(nodeName)
@@ -484,6 +507,9 @@ func TestVerifC06ManagerHistory(t *testing.T) {
 					return c.Violation(t, "history:numa-over-capacity", "%s: NUMA %d cpu allocated %d milli > capacity; history=%v", where, i, want[i][corev1.ResourceCPU], hist)
 				}
 			}
+			if topoGone { // no topology known: only the ledger itself can be compared with the model
+				return false
+			}
 			// GetAvailableCPUs agrees with the model
 			avail, _, err := rm.GetAvailableCPUs(nodeName)
 			if err != nil {
@@ -498,7 +524,7 @@ func TestVerifC06ManagerHistory(t *testing.T) {
 			return false
 		}
 
-		t.Repeat(map[string]func(*rapid.T){
+		actions := map[string]func(*rapid.T){
 			"allocate": func(t *rapid.T) {
 				if dead {
 					return
@@ -624,6 +650,9 @@ func TestVerifC06ManagerHistory(t *testing.T) {
 				}
 				rm.Update(nodeName, alloc)
 				live[uid] = alloc
+				if releasedWhileGone {
+					allocAfterGoneRelease = true
+				}
 				for _, id := range alloc.CPUSet.ToSliceNoSort() {
 					holders := 0
 					for _, a := range live {
@@ -807,7 +836,249 @@ func TestVerifC06ManagerHistory(t *testing.T) {
 					dead = true
 				}
 			},
-		})
+		}
+		if ext {
+			// The NodeResourceTopology of the node is deleted and later reported again (koordlet re-creates it; informer OnDelete ->
+			// topologyOptionsManager.Delete, OnAdd -> UpdateTopologyOptions). The ledger lives in the resourceManager and survives; pods
+			// recorded before are still live, and pod events keep arriving in between. One compound rule, so that the periods without
+			// topology do not dilute the rest of the history. What real callers can do while no valid topology is known:
+			//   - Release: pod delete / terminated / unassigned event (pod_eventhandler.go), Unreserve, forget — no topology guard;
+			//   - Update of a recorded pod (pod update event): resourceManager.Update ignores it (guard), ledger unchanged either way;
+			//   - Allocate for a pod WITHOUT cpu-bind but with a NUMA hint (plugin.go allocate(): only cpu-bind pods are refused up
+			//     front when the topology is invalid); evaluated as a dry run here, nothing is committed.
+			// The same topology (same MaxRefCount, reserved CPUs, NUMA resources) is reported again at the end of the rule.
+			actions["topologyFlap"] = func(t *rapid.T) {
+				if dead {
+					return
+				}
+				tom.Delete(nodeName)
+				topoGone = true
+				hist = append(hist, "NodeResourceTopology deleted")
+				k := rapid.IntRange(0, 3).Draw(t, "flapOps")
+				for i := 0; i < k && !dead; i++ {
+					flapOps++
+					switch rapid.IntRange(0, 3).Draw(t, "flapOp") {
+					case 0, 1:
+						uids := c06SortedUIDs(live)
+						if len(uids) == 0 {
+							rm.Release(nodeName, types.UID("ghost"))
+							hist = append(hist, "release ghost (no topology)")
+							break
+						}
+						uid := rapid.SampledFrom(uids).Draw(t, "uid")
+						rm.Release(nodeName, uid)
+						delete(live, uid)
+						flapReleases++
+						releasedWhileGone = true
+						hist = append(hist, fmt.Sprintf("release %s (no topology)", uid))
+						if _, still := rm.GetNodeAllocation(nodeName).allocatedPods[uid]; still {
+							dead = c.Violation(t, "history:release-lost-while-topology-missing", "pod %s was released while the node had no topology but is still recorded in the ledger (cpus %v); history=%v", uid, rm.GetNodeAllocation(nodeName).allocatedPods[uid].CPUSet, hist)
+							return
+						}
+					case 2:
+						uids := c06SortedUIDs(live)
+						if len(uids) == 0 {
+							break
+						}
+						uid := rapid.SampledFrom(uids).Draw(t, "uid")
+						rm.Update(nodeName, live[uid])
+						hist = append(hist, fmt.Sprintf("updateAgain %s (no topology)", uid))
+					case 3:
+						flapAttempts++
+						var hint []int
+						for i := 0; i < topo.NumNodes; i++ {
+							if rapid.Bool().Draw(t, "hintBit") {
+								hint = append(hint, i)
+							}
+						}
+						if len(hint) == 0 {
+							hint = []int{rapid.IntRange(0, topo.NumNodes-1).Draw(t, "hintOne")}
+						}
+						req := corev1.ResourceList{corev1.ResourceCPU: *resource.NewMilliQuantity(rapid.Int64Range(1, int64(len(all))*1000).Draw(t, "milli"), resource.DecimalSI)}
+						opts := &ResourceOptions{requests: req.DeepCopy(), originalRequests: req.DeepCopy(), cpuBindPolicy: schedulingconfig.CPUBindPolicyDefault,
+							topologyOptions: tom.GetTopologyOptions(nodeName), hint: topologymanager.NUMATopologyHint{NUMANodeAffinity: c06Mask(hint)}}
+						pod := &corev1.Pod{}
+						pod.UID, pod.Name, pod.Namespace = "dry", "dry", "default"
+						_, st := rm.Allocate(node, pod, opts)
+						if st.IsSuccess() {
+							flapAttemptOK++
+						}
+						hist = append(hist, fmt.Sprintf("dryRunAllocate hint=%v req=%v (no topology) -> %v (not committed)", hint, c06RLOne(req), st.IsSuccess()))
+					}
+					if check(fmt.Sprintf("without topology, after %d ops", len(hist))) {
+						dead = true
+						return
+					}
+				}
+				reportTopology()
+				topoGone = false
+				hist = append(hist, "NodeResourceTopology reported again (unchanged)")
+			}
+			// A scheduling attempt that may reuse what a matched reservation holds: the reservation's reserve pod is one of the live
+			// pods (it holds its CPUs / NUMA amounts in the ledger); the CPUs it still has to give are passed as preferredCPUs and
+			// its NUMA amounts as reusableResources, as tryAllocateFromReusable does. Evaluated as a dry run (Filter, hint generation,
+			// FilterNominateReservation); nothing is committed. The clauses of the statement about one successful allocation apply:
+			// exact count, only CPUs free for this pod, required policy reported satisfied really is.
+			actions["reusableDryRun"] = func(t *rapid.T) {
+				if dead {
+					return
+				}
+				var holders []types.UID
+				for _, uid := range c06SortedUIDs(live) {
+					if !live[uid].CPUSet.IsEmpty() {
+						holders = append(holders, uid)
+					}
+				}
+				if len(holders) == 0 {
+					t.Skip("no live pod holding CPUs")
+				}
+				ruid := rapid.SampledFrom(holders).Draw(t, "reservation")
+				rsv := live[ruid]
+				preferred := cpuset.NewCPUSet(c06Subset(t, rsv.CPUSet.ToSlice(), "remained")...)
+				if preferred.IsEmpty() {
+					preferred = rsv.CPUSet
+				}
+				reusable := map[int]corev1.ResourceList{}
+				for _, r := range rsv.NUMANodeResources {
+					rl := corev1.ResourceList{}
+					if q, ok := r.Resources[corev1.ResourceMemory]; ok {
+						rl[corev1.ResourceMemory] = q.DeepCopy()
+					}
+					if q, ok := r.Resources[corev1.ResourceCPU]; ok {
+						m := int64(0)
+						for _, id := range preferred.ToSliceNoSort() {
+							if topo.CPUDetails[id].NodeID == r.Node {
+								m += 1000
+							}
+						}
+						if m > q.MilliValue() {
+							m = q.MilliValue()
+						}
+						rl[corev1.ResourceCPU] = *resource.NewMilliQuantity(m, resource.DecimalSI)
+					}
+					reusable[r.Node] = rl
+				}
+				threads := topo.CPUsPerCore()
+				bind := rapid.SampledFrom([]schedulingconfig.CPUBindPolicy{schedulingconfig.CPUBindPolicyFullPCPUs, schedulingconfig.CPUBindPolicyFullPCPUs,
+					schedulingconfig.CPUBindPolicySpreadByPCPUs, schedulingconfig.CPUBindPolicyDefault}).Draw(t, "bind")
+				required := rapid.IntRange(0, 3).Draw(t, "required") > 0 && bind != schedulingconfig.CPUBindPolicyDefault
+				useHint := rapid.IntRange(0, 3).Draw(t, "useHint") > 0
+				var n int
+				if bind == schedulingconfig.CPUBindPolicyFullPCPUs && rapid.IntRange(0, 3).Draw(t, "wholeCores") > 0 {
+					n = threads * rapid.IntRange(1, len(all)/threads).Draw(t, "cores")
+				} else {
+					n = rapid.IntRange(1, len(all)).Draw(t, "need")
+				}
+				excl := rapid.SampledFrom(c06ExclPolicies).Draw(t, "excl")
+				req := corev1.ResourceList{corev1.ResourceCPU: *resource.NewMilliQuantity(int64(n)*1000, resource.DecimalSI)}
+				opts := &ResourceOptions{numCPUsNeeded: n, requestCPUBind: true, requests: req.DeepCopy(), originalRequests: req.DeepCopy(),
+					requiredCPUBindPolicy: required, cpuBindPolicy: bind, cpuExclusivePolicy: excl, topologyOptions: tom.GetTopologyOptions(nodeName),
+					preferredCPUs: preferred, reusableResources: reusable}
+				var hint []int
+				if useHint {
+					for i := 0; i < topo.NumNodes; i++ {
+						if rapid.Bool().Draw(t, "hintBit") {
+							hint = append(hint, i)
+						}
+					}
+					if len(hint) == 0 {
+						hint = []int{rapid.IntRange(0, topo.NumNodes-1).Draw(t, "hintOne")}
+					}
+					opts.hint = topologymanager.NUMATopologyHint{NUMANodeAffinity: c06Mask(hint)}
+				}
+				unaligned := false // a preferred CPU whose core is not wholly preferred
+				for _, id := range preferred.ToSliceNoSort() {
+					if !topo.CPUDetails.CPUsInCores(topo.CPUDetails[id].CoreID).IsSubsetOf(preferred) {
+						unaligned = true
+					}
+				}
+				target := unaligned && useHint && required && bind == schedulingconfig.CPUBindPolicyFullPCPUs && n%threads == 0
+				reusableRuns++
+				if unaligned {
+					unalignedRuns++
+				}
+				if target {
+					targetRuns++
+				}
+				ref := map[int]int{}
+				for _, a := range live {
+					for _, id := range a.CPUSet.ToSliceNoSort() {
+						ref[id]++
+					}
+				}
+				pod := &corev1.Pod{}
+				pod.UID, pod.Name, pod.Namespace = "dry", "dry", "default"
+				a, st := rm.Allocate(node, pod, opts)
+				hist = append(hist, fmt.Sprintf("dryRunAllocateFromReservation %s n=%d bind=%v required=%v excl=%v hint=%v preferred=%s reusable=%v -> %v (not committed)",
+					ruid, n, bind, required, excl, hint, preferred, c06RL(reusable), c06AllocStr(a)))
+				if !st.IsSuccess() {
+					return
+				}
+				reusableOK++
+				if target {
+					targetOK++
+				}
+				got := a.CPUSet
+				if got.Size() != n {
+					dead = true
+					c.Violation(t, "history:wrong-count", "asked %d CPUs got %v; history=%v", n, got, hist)
+					return
+				}
+				for _, id := range got.ToSliceNoSort() {
+					back := 0
+					if preferred.Contains(id) {
+						back = 1
+					}
+					if reserved.Contains(id) || ref[id]-back >= maxRef {
+						dead = true
+						c.Violation(t, "history:dry-run-took-held-cpu", "dry-run allocation got cpu %d (holders %d, handed back %d times, limit %d, reserved=%v); history=%v", id, ref[id], back, maxRef, reserved.Contains(id), hist)
+						return
+					}
+				}
+				if required && !c06PolicyHolds(bind, got, topo) {
+					dead = true
+					c.Violation(t, "history:required-policy-not-met:reusable-cpus", "required %v reported satisfied by %v on topo %+v (preferred %s, hint %v); history=%v", bind, got, tp, preferred, hint, hist)
+					return
+				}
+				if useHint {
+					sum := int64(0)
+					for _, r := range a.NUMANodeResources {
+						in := false
+						for _, h := range hint {
+							if h == r.Node {
+								in = true
+							}
+						}
+						if !in {
+							dead = true
+							c.Violation(t, "history:numa-outside-hint", "allocated on NUMA %d outside hint %v; history=%v", r.Node, hint, hist)
+							return
+						}
+						q := r.Resources[corev1.ResourceCPU]
+						sum += q.MilliValue()
+					}
+					if sum != int64(n)*1000 {
+						dead = true
+						c.Violation(t, "history:numa-not-exact", "cpu requested %d milli, NUMA allocation sums to %d; history=%v", n*1000, sum, hist)
+						return
+					}
+				}
+			}
+		}
+		t.Repeat(actions)
+		if ext {
+			c.ClassIf(flapOps > 0, "topology-flap-with-events")
+			c.ClassIf(flapReleases > 0, "recorded-pod-released-while-topology-missing")
+			c.ClassIf(allocAfterGoneRelease, "allocation-recorded-after-such-a-release")
+			c.ClassIf(flapAttempts > 0, "numa-attempt-while-topology-missing")
+			c.ClassIf(flapAttemptOK > 0, "numa-attempt-while-topology-missing-succeeded(not asserted)")
+			c.ClassIf(reusableRuns > 0, "reusable-dry-run")
+			c.ClassIf(reusableOK > 0, "reusable-dry-run-success")
+			c.ClassIf(unalignedRuns > 0, "reusable-preferred-cpus-not-core-aligned")
+			c.ClassIf(targetRuns > 0, "reusable-unaligned+numa-hint+required-fullpcpus+whole-core-request")
+			c.ClassIf(targetOK > 0, "reusable-unaligned+numa-hint+required-fullpcpus+whole-core-request:success")
+			c.ClassIf(targetRuns > targetOK, "reusable-unaligned+numa-hint+required-fullpcpus+whole-core-request:refused")
+		}
 		c.ClassIf(sawShared, "cpu-shared-by-2")
 		c.ClassIf(sawNUMA, "numa-hint-allocation")
 		c.ClassIf(sawRequired, "required-policy-success")
@@ -815,11 +1086,16 @@ func TestVerifC06ManagerHistory(t *testing.T) {
 		c.ClassIf(maxRef > 1, "maxref2")
 		c.ClassIf(sawRealloc, "pod-reallocated")
 		c.ClassIf(sawPeek, "dry-run-with-restored-or-preemptible-cpus")
-		if len(hist) >= 3 && (sawNUMA || sawShared) {
+		if !ext && len(hist) >= 3 && (sawNUMA || sawShared) {
+			c.NonTrivial(hist)
+		}
+		// ext: a recorded pod was released while the node had no topology, or a required policy was evaluated with a NUMA hint
+		// over reusable CPUs that are not core-aligned
+		if ext && len(hist) >= 3 && (flapReleases > 0 || targetRuns > 0) {
 			c.NonTrivial(hist)
 		}
 		c.Sample(map[string]any{"topo": []int{tp.Sockets, tp.NodesPerSocket, tp.CoresPerNode, tp.Threads}, "maxRef": maxRef, "reserved": reserved.String(), "memPerNode": memPerNode, "history": hist})
-	})
+	}
 }
 
 func c06SortedUIDs(m map[types.UID]*PodAllocation) []types.UID {
